@@ -168,7 +168,7 @@ func (fr *frame) enterLoop(lp *loop, edges []inEdge, label string) (string, *Sta
 			ft.e.contractError(inv, err)
 			continue
 		}
-		fr.oblig("inv-entry", inv.Props, lp.pos, fmt.Sprintf("loop%d: %s", lp.ordinal, inv.Text), reach, goal)
+		fr.oblig("inv-entry", inv.Props, lp.pos, fmt.Sprintf("loop%d: %s", lp.ordinal, inv.name()), reach, goal)
 	}
 	// havoc
 	ms := fr.loopModSet(lp)
@@ -239,7 +239,7 @@ func (fr *frame) checkLoopStep(lp *loop, from *ssa.BasicBlock, cond string, st *
 			ft.e.contractError(inv, err)
 			continue
 		}
-		fr.oblig("inv-step", inv.Props, lp.pos, fmt.Sprintf("loop%d: %s", lp.ordinal, inv.Text), cond, goal)
+		fr.oblig("inv-step", inv.Props, lp.pos, fmt.Sprintf("loop%d: %s", lp.ordinal, inv.name()), cond, goal)
 	}
 	for phi, v := range saved {
 		fr.vals[phi] = v
